@@ -87,6 +87,38 @@ pub fn run(r: &Req) -> Option<String> {
             }
         }};
     }
+    if r.s("p") == "dqw" {
+        // the caller's buffer is a VecDeque<MaybeUninit<f64>> whose ring storage WRAPS AROUND: every logical
+        // slot must be written (an unchecked write through the first slice aborts under the debug checks)
+        type OA = std::collections::VecDeque<f64>;
+        let wrapped = |t: String| -> String {
+            let w = if t.contains("UNWRITTEN") { "W:missing:wrapped" } else { "W:ok" };
+            format!("R:ok;S:ok;{}", w)
+        };
+        let (view, view2) = (&xs, &ys);
+        let res = std::panic::catch_unwind(std::panic::AssertUnwindSafe(|| -> String {
+            if super::DRIVERS.contains(&f) {
+                match f {
+                    "rolling_apply" => crate::__roll_finish_wrapped!(r, len, OA, U, out, view.rolling_apply::<OA, U, _>(w, |_rm, v| v, out)),
+                    "rolling_apply_idx" => crate::__roll_finish_wrapped!(r, len, OA, U, out, view.rolling_apply_idx::<OA, U, _>(w, |_s, _e, v| v, out)),
+                    "rolling2_apply" => crate::__roll_finish_wrapped!(r, len, OA, U, out, view.rolling2_apply::<OA, U, _, _, _>(view2, w, |_rm, v| v.0 + v.1, out)),
+                    "rolling2_apply_idx" => crate::__roll_finish_wrapped!(r, len, OA, U, out, view.rolling2_apply_idx::<OA, U, _, _, _>(view2, w, |_s, _e, v| v.0 + v.1, out)),
+                    "rolling_custom" => crate::__roll_finish_wrapped!(r, len, OA, U, out, view.rolling_custom::<OA, U, _>(w, |_sl| 1.0, out)),
+                    _ => crate::__roll_finish_wrapped!(r, len, OA, U, out, view.rolling2_custom::<OA, U, _, _, _>(view2, w, |_a, _b| 2.0, out)),
+                }
+            } else if crate::rollrun::ROLL1_VALID.contains(&f) {
+                crate::__roll_finish_wrapped!(r, len, OA, U, out, roll1_valid_call!(f, view, OA, U, out, w, mp, r).unwrap())
+            } else if crate::rollrun::ROLL1_PLAIN.contains(&f) {
+                crate::__roll_finish_wrapped!(r, len, OA, U, out, roll1_plain_call!(f, view, OA, U, out, w, mp, r).unwrap())
+            } else {
+                crate::__roll_finish_wrapped!(r, len, OA, U, out, roll2_call!(f, view, view2, OA, U, out, w, mp, r).unwrap())
+            }
+        }));
+        return Some(match res {
+            Ok(t) => format!("ok;{}", wrapped(t)),
+            Err(_) => "P;R:ok;S:ok;W:ok".to_string(),
+        });
+    }
     if r.s("p") == "nds" {
         // the caller's buffer is a STRIDED uninitialised ndarray view (every second cell of a sentinel-filled
         // base): every slot of the view must be written, no cell outside it may be
@@ -222,10 +254,10 @@ pub fn generate(tier: &str, _rng: &mut Rng) -> (Vec<String>, bool) {
         for len in 0..=maxlen + 1 {
             for w in 0..=len + 3 {
                 for input in ["log", "vec", "deque1", "deque2"] {
-                    for p in ["ret", "out", "nds"] {
-                        if p == "nds" && input != "vec" { continue; }
+                    for p in ["ret", "out", "nds", "dqw"] {
+                        if (p == "nds" || p == "dqw") && input != "vec" { continue; }
                         let two = f.contains('2');
-                        let len2s: Vec<usize> = if two && p != "nds" { vec![len, len.saturating_sub(1), len + 1, len + 2, len + 3, 0] } else if two { vec![len, len + 1] } else { vec![len] };
+                        let len2s: Vec<usize> = if two && p != "nds" && p != "dqw" { vec![len, len.saturating_sub(1), len + 1, len + 2, len + 3, 0] } else if two { vec![len, len + 1] } else { vec![len] };
                         for len2 in len2s {
                             // a shorter second series on a real Vec is undefined behaviour caught only by
                             // the debug-profile precondition check (abort): still run it — ABORT is a verdict
@@ -251,6 +283,8 @@ pub fn generate(tier: &str, _rng: &mut Rng) -> (Vec<String>, bool) {
                         let p = if (pat as usize / 2 + w + k) % 2 == 0 { "ret" } else { "out" };
                         // every fifth case on a Vec: the caller's buffer is a strided ndarray view
                         let (input, p) = if input == "vec" && (pat as usize + 2 * w + k) % 5 == 0 { ("vec", "nds") } else { (input, p) };
+                        // ... and every fifth case next to those: a VecDeque buffer whose ring storage wraps around
+                        let (input, p) = if input == "vec" && p != "nds" && (pat as usize + 2 * w + k) % 5 == 1 { ("vec", "dqw") } else { (input, p) };
                         let mut l = format!("C10 f={} in={} p={} w={} mp={} xs={}{}", f.name, input, p, w, mp_tok(mp), series(len, pat, VALS_A, f.nullable), f.extra);
                         if f.arity == 2 {
                             l.push_str(&format!(" ys={}", series(len, pat.rotate_left(1) ^ (pat >> 1), VALS_B, f.nullable)));
